@@ -26,4 +26,10 @@ def plan(ctx):
                                    unwindset=['setup.0:%d' % (N + 2), 'setup.1:%d' % (N + 2), 'setup.2:4', 'compare_logs.0:25', 'harness.0:%d' % (N + 2), 'harness.1:%d' % (N + 2)],
                                    mem_gb=3, bounds={'N': N, 'limit': lim, 'mode': m},
                                    note='limit_%s<%d> over symbolic sub-rules' % (kind.lower(), lim)))
+    # one guarded step from an arbitrary pre-state: any number of levels already entered, limits that do not fit 16 bits
+    for big in ((70000,) if ctx.quick() else (65535, 70000, 4294967296)):
+        unit = ctx.unit('c18_big%d' % big, cpp=cpp, cxxflags=['-DLIM=2', '-DBIG=%d' % big])
+        qs.append(vf.Query('depth_step/big%d' % big, unit, h, defines={'SP_N': N, 'LIM': 2, 'STEP': 1, 'BIG': big}, unwind=N + 4,
+                           unwindset=['setup.0:%d' % (N + 2), 'setup.1:%d' % (N + 2), 'setup.2:4'], mem_gb=3, bounds={'N': N, 'limit': big, 'entered_levels': 'any value below 2^64 - 1'},
+                           note='limit_depth<%d>: one guarded level entered from an arbitrary depth counter' % big))
     return qs
